@@ -5,12 +5,19 @@ import (
 	"compress/gzip"
 	"fmt"
 	"io"
+	"log"
+	"net"
+	"net/http"
 	"strings"
+	"sync"
 	"testing"
 	"time"
 
 	"github.com/0xReLogic/Helios/internal/config"
+	"github.com/0xReLogic/Helios/internal/plugins"
+	"github.com/0xReLogic/Helios/internal/zzverif/vh"
 	"github.com/0xReLogic/Helios/internal/zzverif/vres"
+	"github.com/0xReLogic/Helios/internal/zzverif/vrt"
 	"github.com/0xReLogic/Helios/internal/zzverif/wire"
 )
 
@@ -100,10 +107,11 @@ type c15Case struct {
 	Method   string
 	Writes   int // number of writes the body is split into
 	FlushMid bool
+	Interim  int // interim (1xx) response sent first
 }
 
 func (c c15Case) String() string {
-	return fmt.Sprintf("pos=%s level=%d min=%d AE=%q type=%q size=%d payload=%s status=%d declare=%v %s writes=%d flushmid=%v", c.Pos, c.Level, c.Min, c.AE, c.CType, c.Size, c.Payload, c.Status, c.Declare, c.Method, c.Writes, c.FlushMid)
+	return fmt.Sprintf("pos=%s level=%d min=%d AE=%q type=%q size=%d payload=%s status=%d declare=%v %s writes=%d flushmid=%v interim=%d", c.Pos, c.Level, c.Min, c.AE, c.CType, c.Size, c.Payload, c.Status, c.Declare, c.Method, c.Writes, c.FlushMid, c.Interim)
 }
 
 // origin returns the handler program and the entity the origin serves (body as the origin
@@ -111,7 +119,7 @@ func (c c15Case) String() string {
 func (c c15Case) origin() (*hprog, []byte, bool) {
 	plain := c15Payload(c.Payload, c.Size)
 	wireBody := plain
-	p := &hprog{Status: c.Status, DeclareLen: c.Declare}
+	p := &hprog{Status: c.Status, DeclareLen: c.Declare, Interim: c.Interim}
 	if c.CType != "" {
 		p.Header = append(p.Header, wire.HeaderLine{"Content-Type", c.CType})
 	}
@@ -190,6 +198,9 @@ func c15Judge(c c15Case, with, without wire.Response, plain []byte, pre bool) (s
 	}
 	if with.Status != wantStatus {
 		return "C15/status-changed", fmt.Sprintf("status %d became %d", wantStatus, with.Status)
+	}
+	if len(with.Interim) != len(without.Interim) {
+		return "C15/interim-response-lost", fmt.Sprintf("the origin's %d interim response(s) arrive as %d", len(without.Interim), len(with.Interim))
 	}
 	bodyExpected := c.Method != "HEAD" && wantStatus != 204 && wantStatus != 304
 	// what the origin's entity is after undoing the origin's own coding
@@ -307,6 +318,19 @@ func c15Cases(th bool) []c15Case {
 					for _, ae := range []string{"gzip", "-"} {
 						out = append(out, c15Case{Pos: "gzip", Level: 5, Min: 64, AE: ae, CType: "text/html", Size: sz, Payload: "text", Status: st, Method: "GET", Writes: w, FlushMid: fm})
 					}
+				}
+			}
+		}
+	}
+	// an interim (1xx) response before the final one
+	for _, pos := range []string{"gzip", "logging,gzip", "size_limit,gzip"} {
+		for _, sz := range []int{0, 65, 5000} {
+			for _, st := range []int{0, 200, 404, 204} {
+				if st == 204 && sz != 0 {
+					continue
+				}
+				for _, ae := range []string{"gzip", "-"} {
+					out = append(out, c15Case{Pos: pos, Level: 5, Min: 64, AE: ae, CType: "text/html", Size: sz, Payload: "text", Status: st, Method: "GET", Writes: 1, Interim: 103})
 				}
 			}
 		}
@@ -453,4 +477,89 @@ func TestVerifC15(t *testing.T) {
 		Rule:       "each case is one evaluation (exchanged with and without the gzip plugin over real connections, decoded as labelled); distinct = distinct (mounting, payload kind, received Content-Encoding, verdict) classes",
 		Bound:      fmt.Sprintf("%d enumerated cases: core product (11 Accept-Encoding spellings x 4 content types x sizes around min_size x payloads x statuses x declared length x GET/HEAD) + levels x positions x min sizes + multi-write/flush programs + buffer-cap cases; plus the proxied mounting", len(cases)),
 		Exhaustive: true, Sample: sample, Extra: map[string]interface{}{"wall_s": time.Since(start).Seconds()}})
+}
+
+// C15 under concurrency: several clients fetch different compressible bodies at the same time,
+// each exchange on a fresh connection (its own server goroutine). Every client must decode
+// exactly its own body; in a -race build state shared between concurrent responses (pooled
+// buffers, scratch space) shows up as a data race.
+func TestVerifC15Conc(t *testing.T) {
+	part := "Conc"
+	if vrt.RaceBuild {
+		part = "Conc-Race"
+	}
+	r := vres.Open("C15", part)
+	defer func() {
+		if err := r.Close(); err != nil {
+			t.Fatal(err)
+		}
+	}()
+	shard, _ := shardOf()
+	if shard != 0 {
+		return
+	}
+	start := time.Now()
+	var evals int64
+	var outs vres.Outcomes
+	var mu sync.Mutex
+	for _, pos := range []string{"gzip", "logging,gzip", "size_limit,gzip"} {
+		var h http.Handler = http.HandlerFunc(func(w http.ResponseWriter, req *http.Request) {
+			// the origin serves a body determined by the request path: /<client>/<size>
+			var client, size int
+			fmt.Sscanf(req.URL.Path, "/%d/%d", &client, &size)
+			w.Header().Set("Content-Type", "text/html")
+			w.Write(c15ConcBody(client, size))
+		})
+		h, err := plugins.BuildChain(config.PluginsConfig{Enabled: true, Chain: c15Positions[pos](gzipCfg(5, 64, "text/"), true)}, h)
+		if err != nil {
+			t.Fatal(err)
+		}
+		l, err := net.Listen("tcp", "127.0.0.1:0")
+		if err != nil {
+			t.Fatal(err)
+		}
+		srv := &http.Server{Handler: h, ErrorLog: log.New(io.Discard, "", 0)}
+		go srv.Serve(l)
+		sizes := []int{65, 700, 3000, 40000, 100 * 1024}
+		var wg sync.WaitGroup
+		for c := 0; c < 8; c++ {
+			wg.Add(1)
+			go func(c int) {
+				defer wg.Done()
+				for round := 0; round < 6; round++ {
+					size := sizes[(c+round)%len(sizes)]
+					e := &exch{addr: l.Addr().String()}
+					resp := e.do(&wire.Request{Method: "GET", Target: fmt.Sprintf("/%d/%d", c, size), Header: []wire.HeaderLine{{"Host", "x.test"}, {"Accept-Encoding", "gzip"}, {"Connection", "close"}}, NoBody: true}, 30*time.Second)
+					e.close()
+					got, derr := c15Decode(resp)
+					want := c15ConcBody(c, size)
+					mu.Lock()
+					evals++
+					switch {
+					case derr != "":
+						r.Violate("C15/concurrent/undecodable", fmt.Sprintf("pos=%s client %d size %d among 8 concurrent clients: %s", pos, c, size, derr), 1, nil)
+						outs.Add("undecodable")
+					case !bytes.Equal(got, want):
+						r.Violate("C15/concurrent/decoded-body-is-not-the-clients-own", fmt.Sprintf("pos=%s client %d size %d among 8 concurrent clients: decoded %d bytes differing from its own body (equal prefix %d)", pos, c, size, len(got), commonPrefix(got, want)), 1, nil)
+						outs.Add("foreign-body")
+					default:
+						outs.Add(fmt.Sprintf("ok/%s/enc=%s", pos, resp.Get("Content-Encoding")))
+					}
+					mu.Unlock()
+				}
+			}(c)
+		}
+		wg.Wait()
+		srv.Close()
+	}
+	nr := vh.CollectRaces(func(key, what string) { r.Violate(key, what, 1, nil) }, "C15/concurrent")
+	r.AddScenario(vres.Scenario{Name: "gzip-concurrent-clients", Engine: "W", Evaluations: evals, Distinct: int64(outs.N()) + 1, Outcomes: outs.N(),
+		Rule:  "8 concurrent clients x 6 rounds x 3 chain positions, bodies of 65 B to 100 KiB marked per client, each exchange on a fresh connection; every client decodes its own body; in the -race build the detector judges the run",
+		Bound: "144 exchanges per build", Exhaustive: true, Sample: map[string]interface{}{"race_reports": nr, "outcomes": outs.Map()},
+		Extra: map[string]interface{}{"wall_s": time.Since(start).Seconds(), "note": "this part complements the enumerated product with real parallelism; its interleavings are those the Go runtime produces (stated in DESIGN.md section 3)"}})
+}
+
+func c15ConcBody(client, size int) []byte {
+	line := fmt.Sprintf("<p>client-%d says hello in a rather compressible way</p>\n", client)
+	return []byte(strings.Repeat(line, size/len(line)+1)[:size])
 }
